@@ -523,6 +523,10 @@ func (sf *file) GetPassthroughFd(mergeBufferSize int64, mergeWorkerCount int) (u
 		if chunkSize > mergeBufferSize {
 			hasLargeChunk = true
 		}
+		// A chunk crossing a boundary of the merge buffer doesn't fit in a batch, too.
+		if mergeBufferSize > 0 && chunkSize > 0 && chunkOffset/mergeBufferSize != (chunkOffset+chunkSize-1)/mergeBufferSize {
+			hasLargeChunk = true
+		}
 		chunks = append(chunks, chunkData{
 			offset:    chunkOffset,
 			size:      chunkSize,
